@@ -11,12 +11,21 @@ simulations use it) with 1/2/8 candidate-evaluation workers; hook H1 records eve
 reservation ids the target NodeClaim holds.  Reservations_Trace.tla keeps the holders as ghost state and
 judges every commitment, every finalized claim, the Results and every reserved-offering deferral.
 
-DRA HALF: see check_dra below (DRA.tla / DRA_Trace.tla)."""
+DRA HALF.  Closed model DRA.tla (the AllocationTracker's bookkeeping: in-flight exclusive devices per
+(NodeClaim, set of instance types), template devices per (NodeClaim, type), shared capacity and pool counters
+with the pessimistic maximum over a NodeClaim's types folded in by delta updates on Commit and
+ReleaseInstanceType) is checked exhaustively against the per-RESOLUTION counting oracle of DRAGuards.tla;
+every DRA_Weak*.cfg must be rejected.  TLC enumerates the model's worlds (DRA_Gen.cfg); each world - wrapped
+into scenarios with five pod-size variants - plus seeded explorer scenarios (checks/dra_common.py) is run by
+the same driver with IgnoreDRARequests=false on generated ResourceSlices / DeviceClasses / ResourceClaims and
+per-instance-type ResourceSliceTemplates.  DRA_Trace.tla judges Results.DRAClaimAllocationMetadata for every
+resolution (one surviving instance type per NodeClaim, from the H1 `final` events)."""
 import concurrent.futures as cf
 import json
 import os
 import random
 
+from checks import dra_common as dc
 from checks import resv_common as rc
 from checks import sched_common as sc
 import vlib
@@ -28,17 +37,26 @@ INVS = ["Inv_C17_ReservationCapacity", "Inv_C17_ManagerConsistent", "Inv_C17_Pin
 WEAK = {"CanReserve": "Inv_C17_ReservationCapacity", "Release": "Inv_C17_ManagerConsistent", "ReleaseDefer": "Inv_C17_DeferJustified",
         "PinAll": "Inv_C17_PinnedToHeldIds", "Strict": "Inv_C17_StrictNoFallback", "KeepHeld": "Inv_C17_StrictClaim",
         "PoolOrder": "Inv_C17_NoPoolFallback"}
+DFLAGS = ("W_OtherNC = TRUE  W_SameType = TRUE  W_Prealloc = TRUE  W_RefCount = TRUE  W_CapInflight = TRUE  W_CapDelta = TRUE  "
+          "W_Counters = TRUE  W_Template = TRUE")
+DINVS = ["Inv_C17_DeviceExclusive", "Inv_C17_SharedCapacity", "Inv_C17_Counters", "Inv_C17_TrackerCoversEveryResolution"]
+DWEAK = {"OtherNC": "Inv_C17_DeviceExclusive", "SameType": "Inv_C17_DeviceExclusive", "Prealloc": "Inv_C17_DeviceExclusive",
+         "RefCount": "Inv_C17_DeviceExclusive", "CapInflight": "Inv_C17_SharedCapacity", "CapDelta": "Inv_C17_TrackerCoversEveryResolution",
+         "Counters": "Inv_C17_Counters", "Template": "Inv_C17_DeviceExclusive"}
+DALL = 'NCs = {"N1", "N2"}  Kinds = {"net", "net2", "shm2", "shm3", "gpu", "tshm"}  Pres = {0, 1, 2}  Slots = {0, 1, 2}'
 ALL = 'Layouts = {1,2,3}  Caps = {0,1,2}  PoolSets = {1,2,3,4,5}  Modes = {"strict", "fallback"}'
 
 SCOPE = {
     # mc: exhaustive closed-model scope; gen: scenario enumeration; replay: TLC scenarios replayed (None = all); explore: explorer scenarios
     "quick": dict(mc='NPods = 3  PodArchs = {1,3,4,6,9}  Layouts = {1,2}  Caps = {0,1,2}  PoolSets = {1,2,5}  Modes = {"strict", "fallback"}',
-                  gen="NPods = 3  PodArchs = {1,2,3,4,5,6,7,8,9,10}  " + ALL, replay=1200, explore=1500),
+                  gen="NPods = 3  PodArchs = {1,2,3,4,5,6,7,8,9,10}  " + ALL, replay=1200, explore=1500,
+                  dmc="NClaims = 2  " + DALL, dgen="NClaims = 3  " + DALL, dreplay=1200, dexplore=1500),
     "thorough": dict(mc="NPods = 3  PodArchs = {1,2,3,4,5,6,7,8,9,10}  " + ALL,
                      mc4='NPods = 4  PodArchs = {1,3,4,6,9}  Layouts = {1,3}  Caps = {1,2}  PoolSets = {1,2}  Modes = {"strict", "fallback"}',
                      gen="NPods = 3  PodArchs = {1,2,3,4,5,6,7,8,9,10}  " + ALL,
                      gen4='NPods = 4  PodArchs = {1,2,3,4,6,8,9}  Layouts = {1,2,3}  Caps = {0,1,2}  PoolSets = {1,2,3}  Modes = {"strict", "fallback"}',
-                     replay=None, explore=15000),
+                     replay=None, explore=15000,
+                     dmc="NClaims = 3  " + DALL, dgen="NClaims = 3  " + DALL, dreplay=None, dexplore=15000),
 }
 
 
@@ -53,9 +71,9 @@ def fix_maps(x, key=None):
     return x
 
 
-def write_cfg(run, name, consts, spec, invs):
+def write_cfg(run, name, consts, spec, invs, flags=FLAGS):
     with open(os.path.join(run.specdir, name), "w") as f:
-        f.write("CONSTANTS %s\nCONSTANTS %s\nSPECIFICATION %s\nINVARIANTS %s\n" % (consts, FLAGS, spec, " ".join(invs)))
+        f.write("CONSTANTS %s\nCONSTANTS %s\nSPECIFICATION %s\nINVARIANTS %s\n" % (consts, flags, spec, " ".join(invs)))
     return name
 
 
@@ -80,11 +98,32 @@ def run_driver(run, scenarios, tag, procs):
     return files, sums, hook
 
 
+def model_dra(run, tier, dev):
+    """DRA closed model, coverage, spec mutations"""
+    if os.environ.get("VERIF_SKIP_MODEL"):
+        return
+    w, heap = (4 if dev else max(2, vlib.NCPU // 2)), ("4g" if dev else "8g")
+    write_cfg(run, "DRA_MC_run.cfg", tier["dmc"], "Spec", DINVS, DFLAGS)
+    run.closed_model("DRA", "DRA_MC_run.cfg", workers=w, heap=heap, timeout=3000)
+    write_cfg(run, "DRA_Cov_run.cfg", 'NCs = {"N1", "N2"}  NClaims = 2  Kinds = {"net", "shm2", "gpu"}  Pres = {0}  Slots = {1}', "Spec", DINVS, DFLAGS)
+    r = run.tlc("DRA", "DRA_Cov_run.cfg", workers=2, coverage=True, timeout=1200)
+    if not r.ok:
+        raise vlib.InfraError("coverage run of the DRA closed model failed: %s" % (r.violated or r.error))
+    zero = rc.coverage_zero(r.stdout)
+    if zero:
+        raise vlib.InfraError("vacuous DRA closed model, actions never taken: %s" % zero)
+    for wk, inv in DWEAK.items():
+        wr = run.tlc("DRA", "DRA_Weak%s.cfg" % wk, workers=2, expect_violation=True, timeout=900)
+        if wr.violated != inv:
+            raise vlib.InfraError("spec mutation DRA_Weak%s.cfg not rejected by TLC as expected (got %s)" % (wk, wr.violated or wr.error))
+    run.notes.append("DRA spec mutations rejected: " + ", ".join(sorted(DWEAK)))
+
+
 def model(run, tier, dev):
     """closed model, coverage, spec mutations (VERIF_SKIP_MODEL=1: developer aid for mutation runs)"""
     if os.environ.get("VERIF_SKIP_MODEL"):
         return
-    w, heap = (4 if dev else None), ("4g" if dev else "8g")
+    w, heap = (4 if dev else max(2, vlib.NCPU // 2)), ("4g" if dev else "8g")
     write_cfg(run, "Reservations_MC_run.cfg", tier["mc"], "Spec", INVS)
     run.closed_model("Reservations", "Reservations_MC_run.cfg", workers=w, heap=heap, timeout=3000)
     if tier.get("mc4"):
@@ -110,44 +149,70 @@ def check(run):
     rng = random.Random(run.seed)
     dev = os.environ.get("VERIF_DEV")
     procs = 4 if dev else min(12, vlib.NCPU)
-    run.rule = ("a behaviour = one scenario (catalog with reserved offerings x weighted pools x pod batch x strict|fallback x workers) run "
-                "through the real scheduler; it is non-trivial when some NodeClaim held a reservation at a commitment or a pod was "
-                "deferred with a reserved-offering error (only then a C17 guard has a non-trivial antecedent)")
-    model(run, tier, dev)
-    # TLC-enumerated scenarios (both modes are part of the scenario space); workers 1/2/8 by rotation
+    run.rule = ("a behaviour = one scenario run through the real scheduler.  Reservation half: catalog with reserved offerings x weighted pools "
+                "x pod batch x strict|fallback x workers; non-trivial when some NodeClaim held a reservation at a commitment or a pod was "
+                "deferred with a reserved-offering error.  DRA half: ResourceSlices / templates / claims x pod batch; non-trivial when the "
+                "allocator allocated at least one claim in the pass (only then a C17 guard has a non-trivial antecedent)")
+    # 1. closed models of both halves (independent TLC jobs)
+    with cf.ThreadPoolExecutor(max_workers=2) as ex:
+        jobs = [ex.submit(model, run, tier, dev), ex.submit(model_dra, run, tier, dev)]
+        for j in jobs:
+            j.result()
+    # 2. TLC-enumerated scenarios
+    #    reservations: both modes are part of the scenario space; workers 1/2/8 by rotation
     write_cfg(run, "Reservations_Gen_run.cfg", tier["gen"], "GenSpec", ["GenPrint"])
-    enum = [fix_maps(s) for s in run.generate("Reservations", "Reservations_Gen_run.cfg", workers=2, timeout=2400, heap="4g")]
+    write_cfg(run, "DRA_Gen_run.cfg", tier["dgen"], "GenSpec", ["GenPrint"], DFLAGS)
+    with cf.ThreadPoolExecutor(max_workers=2) as ex:
+        j1 = ex.submit(run.generate, "Reservations", "Reservations_Gen_run.cfg", workers=2, timeout=2400, heap="4g")
+        j2 = ex.submit(run.generate, "DRA", "DRA_Gen_run.cfg", workers=2, timeout=2400, heap="4g")
+        enum, worlds = [fix_maps(s) for s in j1.result()], j2.result()
     if tier.get("gen4"):
         write_cfg(run, "Reservations_Gen4_run.cfg", tier["gen4"], "GenSpec", ["GenPrint"])
         enum += [fix_maps(s) for s in run.generate("Reservations", "Reservations_Gen4_run.cfg", workers=2, timeout=2400, heap="4g")]
-    if not enum:
+    if not enum or not worlds:
         raise vlib.InfraError("TLC generated no scenarios")
-    total_enum = len(enum)
+    total_enum, total_worlds = len(enum), len(worlds)
+    run.exhaustive = True
     if tier["replay"] and tier["replay"] < len(enum):
-        enum = rng.sample(enum, tier["replay"])
-    else:
-        run.exhaustive = True
+        enum, run.exhaustive = rng.sample(enum, tier["replay"]), False
     rng.shuffle(enum)
     scenarios = [rc.with_workers(s, (1, 2, 8)[i % 3]) for i, s in enumerate(enum)]
     scenarios += [rc.explore_resv(rng, "x-resv-%d-%d" % (run.seed, i)) for i in range(tier["explore"])]
+    #    DRA: every world x 5 pod-size variants
+    dscn = [dc.from_world(w, v, "tlc-dra-%d/v%d" % (i, v)) for i, w in enumerate(worlds) for v in sorted(dc.SIZES)]
+    total_dscn = len(dscn)
+    if tier["dreplay"] and tier["dreplay"] < len(dscn):
+        dscn, run.exhaustive = rng.sample(dscn, tier["dreplay"]), False
+    dscn += [dc.explore_dra(rng, "x-dra-%d-%d" % (run.seed, i)) for i in range(tier["dexplore"])]
+    # 3. the real scheduler
     files, sums, hook = run_driver(run, scenarios, "c17", procs)
-    if not hook:
+    dfiles, dsums, dhook = run_driver(run, dscn, "c17dra", procs)
+    if not (hook and dhook):
         raise vlib.InfraError("the tree under test does not carry hook H1 (repo-patches/hook-H1.patch): C17 needs the commit-order events")
-    bad = [s for s in sums if s.get("status") != "ok"]
+    bad = [s for s in sums + dsums if s.get("status") != "ok"]
     if bad:
         raise vlib.InfraError("driver could not materialise %d scenarios, e.g. %s" % (len(bad), bad[0]))
+    # 4. trace validation
     viol = run.validate("Reservations_Trace", "Reservations_Trace.cfg", files, par=4 if dev else None, timeout=3000)
+    viol += run.validate("DRA_Trace", "DRA_Trace.cfg", dfiles, par=4 if dev else None, timeout=3000)
     note_obs(run, viol)
-    stats = collect_stats(files)
+    stats, dstats = collect_stats(files), collect_stats(dfiles)
     nontrivial_cases(run, files, sums)
-    run.samples = [{"scenario": scenarios[0]["name"], "summary": sums[0]}, {"scenario": scenarios[-1]["name"], "summary": sums[-1]}]
-    run.extra_cov.update({"tlc_enumerated_scenarios": total_enum, "tlc_scenarios_replayed": len(enum), "explorer_scenarios": tier["explore"],
-                          "half": "reservations", "trace_stats": stats, "hook_h1_events": hook,
-                          "new_claims": sum(s.get("claims", 0) for s in sums), "pod_errors": sum(s.get("errors", 0) for s in sums),
-                          "panics": sum(1 for s in sums if s.get("panic"))})
+    nontrivial_dra(run, dfiles, dsums)
+    run.samples = [{"scenario": scenarios[0]["name"], "summary": sums[0]}, {"scenario": scenarios[-1]["name"], "summary": sums[-1]},
+                   {"scenario": dscn[0]["name"], "summary": dsums[0]}, {"scenario": dscn[-1]["name"], "summary": dsums[-1]}]
+    run.extra_cov.update({"halves": "reservations + DRA",
+                          "tlc_enumerated_scenarios": total_enum, "tlc_scenarios_replayed": len(enum), "explorer_scenarios": tier["explore"],
+                          "dra_tlc_worlds": total_worlds, "dra_tlc_scenarios": total_dscn, "dra_scenarios_replayed": len(dscn) - tier["dexplore"],
+                          "dra_explorer_scenarios": tier["dexplore"], "trace_stats": stats, "dra_trace_stats": dstats, "hook_h1_events": hook,
+                          "new_claims": sum(s.get("claims", 0) for s in sums + dsums), "pod_errors": sum(s.get("errors", 0) for s in sums + dsums),
+                          "panics": sum(1 for s in sums + dsums if s.get("panic"))})
     # vacuity guard (only when nothing failed: a changed tree that e.g. never defers must be judged by its violations, not by this)
     if not run.viol and (stats.get("holdingSteps", 0) == 0 or stats.get("deferrals", 0) == 0 or stats.get("releases", 0) == 0):
         raise vlib.InfraError("vacuous run: no commitment held a reservation / nothing was released / nothing was deferred (%s)" % stats)
+    if not run.viol and (dstats.get("claimsAllocated", 0) == 0 or dstats.get("superposed", 0) == 0 or dstats.get("sharedDevices", 0) == 0
+                         or dstats.get("templateDevices", 0) == 0):
+        raise vlib.InfraError("vacuous DRA run: no claim allocated / no superposed NodeClaim / no shared or template device (%s)" % dstats)
     run.assumptions += [
         "capacity of a reservation id = the capacity its offerings declare (all offerings of one id agree in the generated catalogs; "
         "otherwise the invariant uses the largest, the exhaustion test the smallest declared value)",
@@ -157,8 +222,25 @@ def check(run):
         "the sub-alphabet where compatibility is decidable from the scenario (no daemonsets/taints/limits/minValues/overrides; pod constrains "
         "zone/ct/it/arch by selector and at most one required term)",
         "fallback mode: a claim forced to capacity-type reserved by its pool/pods that holds no reservation is not counted as a holder (observation only)",
+        "DRA: the instance types a new NodeClaim can still become are those of its H1 `final` event (before TruncateInstanceTypes, a superset); an "
+        "existing node has the one type of its label; a device that consumes a counter is charged once per resolution however often it is shared",
+        "DRA alphabet: one capacity dimension and one counter per pool, one ExactCount request per claim, DeviceClasses select by driver; "
+        "pre-allocated claims stay allocated (no deleting consumers); All-mode, FirstAvailable, constraints and attribute bindings are not generated",
         "single scheduling pass; API/provider faults are outside C17's quantifier",
     ]
+
+
+def nontrivial_dra(run, files, sums):
+    hot = set()
+    for f in files:
+        name = None
+        for line in open(f):
+            if '"e":"Cfg"' in line:
+                name = json.loads(line).get("name")
+            elif '"e":"Results"' in line and '"dra":[{' in line:
+                hot.add(name)
+    for s in sums:
+        run.note_case(s["name"], s["name"] in hot)
 
 
 def note_obs(run, viol):
@@ -207,5 +289,7 @@ def replay(run, path):
     files, sums, hook = run_driver(run, [scn], "replay", 1)
     run.note_case(scn.get("name", "replay"))
     viol = run.validate("Reservations_Trace", "Reservations_Trace.cfg", files)
+    if "dra" in scn:
+        viol += run.validate("DRA_Trace", "DRA_Trace.cfg", files)
     note_obs(run, viol)
     run.samples = [{"scenario": scn.get("name"), "summary": sums[0]}]
